@@ -9,7 +9,7 @@ META = dict(
     functions=["tools.time_integration.integration_stencil", "integrated_lagrange_base_polynomial_coef",
                "lagrange_base_polynomial_coef", "evaluate_polynomial", "integrate"],
     bounds=dict(
-        quick="stencils: all 36 (order,n), order<=8, symbolic polynomial coefficients; integrate: N<=7 samples, "
+        quick="stencils: all 36 (order,n), order<=8, symbolic polynomial coefficients; integrate: N<=7 samples (step claims N<=10), "
               "(order,n) in {(4,1),(3,2),(2,1)}, symbolic signal/start value, symbolic increasing times (jitter) "
               "and concrete uniform grids with symbolic cubic",
         thorough="integrate: N<=10, all (order,n) with order<=5; symbolic step size on uniform grids"),
@@ -225,6 +225,12 @@ def cases(tier):
                            kwargs=dict(N=N, order=o, n=n), opts=dict(weight=N)))
             cs.append(dict(name=f"int_steps_N{N}_o{o}_n{n}", fn="props.c20:case_integrate_steps",
                            kwargs=dict(N=N, order=o, n=n), opts=dict(weight=N)))
+    if tier == "quick":
+        # long enough that the first interval of the record lies outside every neighbourhood the jitter claim allows as
+        # the 1% reference (a tolerance frozen at the first step is then visible)
+        for (o, n), N in (((4, 1), 10), ((3, 2), 8), ((2, 1), 8)):
+            cs.append(dict(name=f"int_steps_N{N}_o{o}_n{n}", fn="props.c20:case_integrate_steps",
+                           kwargs=dict(N=N, order=o, n=n), opts=dict(weight=N * 10)))
     for (o, n) in combos:
         for N in ([7, 9] if tier == "quick" else [8, 12]):
             for h, t0 in (("1/2", "0"), ("3/7", "-5/3")):
